@@ -161,7 +161,7 @@ impl SubCheckT for CnfUtil {
     const NAME: &'static str = "cnf";
     const RULE: &'static str = "random clause lists (incl. the empty list, empty clauses, duplicate/complementary literals): Cnf::new keeps every clause's literal set and num_vars = largest label + 1; eval on all 2^n assignments = the harness's evaluator; is_sat_partial(m) iff every clause has a literal true under m; condition(l) = the cofactor on all assignments and no longer mentions the variable; wmc (small-integer reals, GF(479001599)) = exact brute force, where the empty formula counts one and a formula with an empty clause counts zero. Non-trivial: >=2 clauses with >=2 literals and a non-constant formula";
     fn cases(tier: Tier) -> u32 {
-        tier.pick(6000, 200_000)
+        tier.pick(12_000, 200_000)
     }
     fn strategy(_tier: Tier) -> BoxedStrategy<CnfUtilCase> {
         (
@@ -516,7 +516,7 @@ impl SubCheckT for Models {
     const NAME: &'static str = "partial_model_varset";
     const RULE: &'static str = "histories of set/unset on two PartialModels (built with from_assignments / from_litvec / from_total_model / new) and insert/remove/union_with on two VarSets, against Vec<Option<bool>> and BTreeSet models: get, is_set, lit_implied, lit_neg_implied, assignment_iter, difference, ==; contains, len, is_empty, iter, union, minus, intersect, intersect_varset, difference, == after every step. Non-trivial: >=4 mutations, >=2 variables";
     fn cases(tier: Tier) -> u32 {
-        tier.pick(3000, 100_000)
+        tier.pick(6000, 100_000)
     }
     fn strategy(_tier: Tier) -> BoxedStrategy<ModelCase> {
         let op = prop_oneof![
@@ -688,7 +688,7 @@ impl SubCheckT for Hasher {
     const NAME: &'static str = "hasher";
     const RULE: &'static str = "CnfHasher (clone of cnf.hasher()) under histories of push / decide / pop (pop only above depth 0; decides consistent with the decisions in effect) and hash(m) where m = decisions in effect + random consistent extras and m falsifies no clause: residual R(m) = {(clause occurrence, its unassigned literals)} over unsatisfied clauses of length > 1; equal residuals => equal hashes, and when the CNF has <= 26 literal occurrences (prime product < 2^128) equal hashes => equal residuals. Non-trivial: >=1 pop and two different assignments with equal residuals";
     fn cases(tier: Tier) -> u32 {
-        tier.pick(5000, 150_000)
+        tier.pick(10_000, 150_000)
     }
     fn strategy(_tier: Tier) -> BoxedStrategy<HasherCase> {
         let op = prop_oneof![
